@@ -14,5 +14,7 @@ def factsP : Params where
   resumable := Facts.pa.headerResumable
   table := Facts.pa.dispatch.map (fun r => (r.1, r.2.1, r.2.2.1))
   defaultUnsupported := Facts.pa.dispatchDefaultUnsupported
+  retriesDetect := Facts.pa.connDetectsWheneverUnwrapped && Facts.pa.failureKeptFields.isEmpty &&
+    Facts.pa.wrappedOnlyFromDispatch && Facts.pa.callsViaConn == ["Read", "Write"]
 
 end Gotlcp.Model.PA
